@@ -167,9 +167,12 @@ class PopenSpawn(SpawnBase):
         if status >= 0:
             self.exitstatus = status
             self.signalstatus = None
+            # same encoding as the status word returned by os.waitpid()
+            self.status = status << 8
         else:
             self.exitstatus = None
             self.signalstatus = -status
+            self.status = -status
         self.terminated = True
         return status
 
